@@ -78,7 +78,10 @@ class _Scope(Contract):
         if q == "StateContext.updated":
             return self.state_updated
         if q == "MetricsContext.scope" and getattr(self, "_mc_prebuilt", None) is not None:
-            return lambda it2, fv2, ca, node: self._mc_prebuilt
+            def made(it2, fv2, ca, node):
+                self._mc_calls = getattr(self, "_mc_calls", 0) + 1
+                return self._mc_prebuilt
+            return made
         if q in ("ScopeMetrics._finish", "ScopeMetrics.log"):
             return self.metrics_never_raises
         if q == "ScopeMetrics.time":
@@ -205,6 +208,11 @@ class _Scope(Contract):
             trace_id=st.fresh_val("trace_id"), name=V.VStr(st.fresh("name", I)), logger=st.fresh_val("logger"),
             state=state, disposables=d, completion=st.fresh_val("completion"))))
         self.obj = obj
+        # nested scopes are registered under the scope that is current when the scope *object* is made (MetricsContext.scope
+        # reads the metrics variable and registers the new ScopeMetrics under what it finds, C09 Init): done by __init__ itself,
+        # not put off until the block is entered - by then another scope may be current, or the intended parent left
+        st.check("C09-P1:the-scopes-metrics-are-made-(registered-under-the-current-scope)-exactly-once-when-the-scope-object-is-created",
+                 z3.BoolVal(getattr(self, "_mc_calls", 0) == 1), note=f"MetricsContext.scope calls during __init__: {getattr(self, '_mc_calls', 0)}")
         self.tgc = st.get(obj, "_task_group_context")
         # --- a scope object may be entered somewhere else than where it was created (prepared scopes, ctx.stream):
         # the three variables hold arbitrary other values when the block is entered
